@@ -4,7 +4,7 @@
 # exit 0 held / 1 VIOLATION / 2 harness or build trouble
 V=$(cd "$(dirname "$0")" && pwd); export VERIF_ROOT=$V
 cd "$V" || exit 2
-P=${1:?property}; T=${2:-quick}
+P=${1:?property}; T=${2:-${VERIF_TIER:-quick}}   # the tier named on the command line wins; VERIF_TIER is only the default
 B=$V/.build/$P; mkdir -p "$V/.build"
 if ! scripts/build.sh "$B" > "$B.buildlog" 2>&1; then
   mkdir -p "$B"; cat "$B.buildlog" >&2
@@ -14,5 +14,4 @@ fi
 if [ "$T" = "--replay" ]; then
   exec "$B/simrun" -prop "$P" -bin "$B/h.test" -replay "${3:?replay file}"
 fi
-[ -n "$VERIF_TIER" ] && T=$VERIF_TIER
 exec "$B/simrun" -prop "$P" -tier "$T" -bin "$B/h.test"
